@@ -26,6 +26,11 @@ def fsx_stream(run, n, label='doer-model'):
         run.cov['traces_validated_against_impl'] += 1
     run.cov['disagreements_checked'] += len(cases)
     for c in cases:
+        msg = fsx.oracle_effect_or_error(c)
+        if msg:
+            run.violation(dict(kind='oracle-failed-on-implementation', layer='L3', oracle='a creating / deleting command whose effect is not there was answered with an error', message=msg, **fsx.describe(c)))
+            break
+    for c in cases:
         msg = fsx.oracle_no_stamped_garbage(c)
         if msg:
             run.violation(dict(kind='oracle-failed-on-implementation', layer='L3', oracle='a file that carries the time sent with a transfer holds the bytes of the whole transfer', message=msg, **fsx.describe(c)))
